@@ -125,8 +125,22 @@ pub fn build(prop: &str, seed: u64, hist: u64, rng: &mut Rng, ids: &[String]) ->
             }
             flags.uncaught = rng.chance(20);
         }
+        "C20" => {
+            fault_cfg = if sub < 60 { pick_faults(rng, HONEST_LOSSLESS, 3) } else { pick_faults(rng, LOSSY, 2) };
+            if sub >= 60 {
+                profile = "lossy".into();
+            }
+            if rng.chance(25) {
+                profile = "bogus".into();
+                fault_cfg.insert("bogus_ids".into(), 300);
+            } else if rng.chance(20) {
+                profile = "corrupt".into();
+                fault_cfg.insert("corrupt".into(), 250);
+            }
+            flags.uncaught = rng.chance(30);
+        }
         _ => {
-            // C04, C07, C09, C10, C20: honest profiles, all schedule faults
+            // C04, C07, C09, C10: honest profiles, all schedule faults
             fault_cfg = if sub < 70 { pick_faults(rng, HONEST_LOSSLESS, 3) } else { pick_faults(rng, LOSSY, 2) };
             if sub >= 70 {
                 profile = "lossy".into();
@@ -152,14 +166,28 @@ pub fn build(prop: &str, seed: u64, hist: u64, rng: &mut Rng, ids: &[String]) ->
     }
     if prop == "C22" {
         // limits are drawn by the C22 machinery relative to real sizes once they are known (monitors2::c22)
+        // per-peer knobs for the whole history; boundary values around real sizes are drawn per run by monitors2::c22
+        let grid = [0u64, 50, 200, 500, 1000, 3000, 10000];
         for _ in 0..np {
-            limits.push(Limits::default());
+            let mut l = Limits::default();
+            if rng.chance(40) {
+                l.air = grid[rng.below(grid.len())];
+            }
+            if rng.chance(40) {
+                l.particle = grid[rng.below(grid.len())];
+            }
+            if rng.chance(40) {
+                l.call_result = grid[rng.below(grid.len())];
+            }
+            l.hard = rng.chance(35);
+            limits.push(l);
         }
         let mut calls = vec![];
         ast.calls(&mut calls);
         for c in calls {
             if let script::Node::Call { fname, .. } = c {
-                if rng.chance(10) {
+                let plain = fname.starts_with('f') && fname[1..].chars().all(|c| c.is_ascii_digit());
+                if rng.chance(10) && plain {
                     svc_faults.insert(fname.clone(), SvcFault::Oversize(200 + rng.below(800) as u32));
                 }
             }
